@@ -460,16 +460,16 @@ RunLoop:
 				// numeric values because they have been prepared previously.
 				nextStart, _ := Add(start, step)
 
-				// Check if the loop is done.  It can be done if we have gone
-				// over the stop value or if there has been overflow /
-				// underflow.
-				var done bool
+				// Check if the loop carries on.  It does only as long as the
+				// new value has not gone over the stop value (so it is done if
+				// either is NaN) and there has been no overflow / underflow.
+				var carryOn bool
 				if isPositive(step) {
-					done = numIsLessThan(stop, nextStart) || numIsLessThan(nextStart, start)
+					carryOn = numIsLessThanOrEqual(nextStart, stop) && !numIsLessThan(nextStart, start)
 				} else {
-					done = numIsLessThan(nextStart, stop) || numIsLessThan(start, nextStart)
+					carryOn = numIsLessThanOrEqual(stop, nextStart) && !numIsLessThan(start, nextStart)
 				}
-				if done {
+				if !carryOn {
 					nextStart = NilValue
 				}
 				setReg(regs, cells, startReg, nextStart)
@@ -515,6 +515,12 @@ RunLoop:
 					done, _ = isLessThan(stop, start)
 				} else {
 					done, _ = isLessThan(start, stop)
+				}
+				// An integer loop never goes over its limit clipped to an
+				// integer.  A NaN limit cannot be clipped, nor compared with:
+				// the loop is not run at all.
+				if tstart == IsInt && tstep == IsInt && isNaN(stop) {
+					done = true
 				}
 				if done {
 					start = NilValue
